@@ -1,6 +1,6 @@
 (* C14 — Close waits for the reads and writes sent before it. Theorems only; proofs in Proofs/PktMgrP.v *)
 From Coq Require Import List Bool Arith.
-From Sftp Require Import Sched.PktMgr Sched.PktTrace Proofs.PktMgrP Proofs.PktMgrLiveP Proofs.PktTraceP.
+From Sftp Require Import Sched.PktMgr Sched.PktTrace Proofs.PktMgrP Proofs.PktMgrLiveP Proofs.PktTraceP Proofs.PktTraceLiveP Proofs.PktTraceBarrierP.
 Import ListNotations.
 
 (* for every pipeline depth, number of handles and relative speed of the pool workers and the command worker: while a
@@ -41,6 +41,22 @@ Theorem C14_accepted_trace_in_order : forall tr s owed,
   inv1 s /\ emitted s = es_of tr ++ owed /\ es_of tr = seq 1 (length (es_of tr)).
 Proof. exact accepted_raw_in_order. Qed.
 Print Assumptions C14_accepted_trace_in_order.
+
+(* the property itself, on the recorded runs: in every trace the model accepts, when the dispatcher hands a CLOSE to the
+   command worker (its D event), every request it handed out before - READ, WRITE or command, whatever the workers'
+   relative speed - has already reported that it is finished (its F event, logged on entry to readyPacket) *)
+Theorem C14_accepted_close_after_finished : forall pre oid post c,
+  accept_raw (pre ++ EvD oid KClose :: post) = inl c ->
+  forall o k, In (EvD o k) pre -> In (EvF o) pre.
+Proof. exact accepted_raw_close_after_finished. Qed.
+Print Assumptions C14_accepted_close_after_finished.
+
+(* and an accepted trace that ends with nothing in flight has answered everything, the CLOSE included *)
+Theorem C14_accepted_trace_complete : forall tr s owed,
+  accept_raw tr = inl (s, owed) -> quiescent s = true ->
+  es_of tr ++ owed = seq 1 (arrived s).
+Proof. exact accepted_raw_quiescent_complete. Qed.
+Print Assumptions C14_accepted_trace_complete.
 
 Example C14_nonvacuous :
   run init [Arrive KRW; Arrive KRW; Arrive KClose; Dispatch; Dispatch; Dispatch] = None /\
